@@ -19,6 +19,10 @@ m = {
   "name": "govc", "path": "/verif/govc",
   "serves_properties": sorted(k for k in claims['checks'].keys() if k != 'C19'),
   "kind_free_text": "contract-based deductive verifier for Go written for this task: go/packages (typed AST of /repo's working tree, tag verif) -> forward symbolic execution with state merging (= weakest-precondition VCs) against //@ contracts -> one SMT-LIB query per named obligation -> z3 / z3-new / cvc5 portfolio"
+ }, {
+  "name": "pyvc", "path": "/verif/pyvc",
+  "serves_properties": ["C19"],
+  "kind_free_text": "contract-based deductive verifier for a subset of Python written for this task (second front end): ast of the real source -> symbolic execution of every path incl. exceptional ones against #@ contracts kept in comment-only files next to the source -> one z3 query per obligation (z3 Python API, tooling venv python3-vt)"
  }],
  "checks": [],
  "notes": claims.get('notes', ''),
